@@ -1,31 +1,52 @@
 (* C15 model, part 3: the writer lock and the published tree through Updates / View
    (fox.go:394-424), the write helpers (fox.go:183-266), Txn.Commit / Txn.Abort (txn.go:302-338),
    txnWith (fox.go:448-458), and ServeHTTP's use of them (none: it only loads the root).
-   Routes are abstracted to their patterns (one method); the tree to the set of patterns. *)
+   Routes are abstracted to (method+pattern key, handler version); the tree to the set of routes. *)
 From FoxBase Require Import Bytes.
 From FoxC15 Require Import Types.
 
-Record rstate := { locked : bool; published : list bytes }.
-Record txn := { t_write : bool; t_root : option (list bytes) }.   (* rootTxn == nil once settled *)
+(* a registered route: key = method ++ " " ++ pattern, and the version of its handler (which
+   handler a request to it reaches; Update replaces it) *)
+Definition route := (bytes * N)%type.
 
-Inductive op := OpHandle (r : bytes) | OpDelete (r : bytes) | OpLookup (r : bytes).
+Record rstate := { locked : bool; published : list route }.
+Record txn := { t_write : bool; t_root : option (list route) }.   (* rootTxn == nil once settled *)
 
-Definition mem (r : bytes) (l : list bytes) : bool := existsb (bytes_eqb r) l.
-Definition remove (r : bytes) (l : list bytes) : list bytes := filter (fun x => negb (bytes_eqb r x)) l.
+Inductive op :=
+| OpHandle (k : bytes) (v : N)
+| OpUpdate (k : bytes) (v : N)
+| OpDelete (k : bytes)
+| OpTruncate (methods : list bytes)       (* Txn.Truncate(methods...): [] = every method *)
+| OpLookup (k : bytes).
 
-(* an operation on a transaction; errors (settled txn, read-only txn, route exists / not
-   found) leave the transaction unchanged and are ignored by the transaction functions of the harness *)
+Definition mem (k : bytes) (l : list route) : bool := existsb (fun r => bytes_eqb k (fst r)) l.
+Definition remove (k : bytes) (l : list route) : list route := filter (fun r => negb (bytes_eqb k (fst r))) l.
+Definition replace (k : bytes) (v : N) (l : list route) : list route :=
+  map (fun r => if bytes_eqb k (fst r) then (k, v) else r) l.
+
+(* the route is registered under method m: its key starts with m ++ " " *)
+Definition of_method (m : bytes) (r : route) : bool := prefix_b (m ++ S2B " ") (fst r).
+
+(* tXn.truncate (tree.go:597-636) on the transaction's private root *)
+Definition truncate (methods : list bytes) (l : list route) : list route :=
+  match methods with
+  | [] => []
+  | _ => filter (fun r => negb (existsb (fun m => of_method m r) methods)) l
+  end.
+
+(* an operation on a transaction; errors (read-only txn, route exists / not found) leave the
+   transaction unchanged and are ignored by the transaction functions of the harness *)
 Definition apply_op (t : txn) (o : op) : txn :=
   match t_root t with
   | None => t
   | Some rs =>
+      if negb (t_write t) then t else
       match o with
       | OpLookup _ => t
-      | OpHandle r =>
-          if negb (t_write t) then t else
-          if mem r rs then t else {| t_write := true; t_root := Some (rs ++ [r]) |}
-      | OpDelete r =>
-          if negb (t_write t) then t else {| t_write := true; t_root := Some (remove r rs) |}
+      | OpHandle k v => if mem k rs then t else {| t_write := true; t_root := Some (rs ++ [(k, v)]) |}
+      | OpUpdate k v => if mem k rs then {| t_write := true; t_root := Some (replace k v rs) |} else t
+      | OpDelete k => {| t_write := true; t_root := Some (remove k rs) |}
+      | OpTruncate ms => {| t_write := true; t_root := Some (truncate ms rs) |}
       end
   end.
 
@@ -82,8 +103,12 @@ Definition view (st : rstate) (ops : list op) (e : ending) : option (tout * rsta
 (* Router.Handle (Update, Delete, HandleRoute, UpdateRoute alike): txnWith(true, false);
    defer txn.Abort(); one operation — which may panic in user code (a middleware applied while
    the route is built) or return an error — then Commit *)
-Definition op_fails (rs : list bytes) (o : op) : bool :=
-  match o with OpHandle r => mem r rs | OpDelete r => negb (mem r rs) | OpLookup _ => false end.
+Definition op_fails (rs : list route) (o : op) : bool :=
+  match o with
+  | OpHandle k _ => mem k rs
+  | OpUpdate k _ | OpDelete k => negb (mem k rs)
+  | OpTruncate _ | OpLookup _ => false
+  end.
 
 Definition helper (st : rstate) (o : op) (e : ending) : option (tout * rstate) :=
   match txn_begin st true with
@@ -99,16 +124,31 @@ Definition helper (st : rstate) (o : op) (e : ending) : option (tout * rstate) :
       end
   end.
 
-Inductive tkind := TUpdates | TView | THelper.
+(* unmanaged: txn := Router.Txn(true); defer txn.Abort(); operations; then txn.Commit() (EndOk),
+   an explicit txn.Abort() (EndErr) or a panic caught above the deferred Abort (EndPanic) *)
+Definition manual (st : rstate) (ops : list op) (e : ending) : option (tout * rstate) :=
+  match txn_begin st true with
+  | None => None
+  | Some (st1, t) =>
+      let t1 := fold_left apply_op ops t in
+      match e with
+      | EndPanic id => Some (TPanic id, fst (abort st1 t1))
+      | EndErr => let '(st2, t2) := abort st1 t1 in Some (TErr, fst (abort st2 t2))
+      | EndOk => let '(st2, t2) := commit st1 t1 in Some (TOk, fst (abort st2 t2))
+      end
+  end.
+
+Inductive tkind := TUpdates | TView | THelper | TManual.
 
 Definition run_txn (k : tkind) (st : rstate) (ops : list op) (e : ending) : option (tout * rstate) :=
   match k with
   | TUpdates => updates st ops e
   | TView => view st ops e
   | THelper => match ops with [o] => helper st o e | _ => None end
+  | TManual => manual st ops e
   end.
 
 (* "usable": the three probes of the harness, on the model state — a later write helper
    completes, the published routes are [expected] *)
 Definition write_possible (st : rstate) : bool :=
-  match helper st (OpHandle (S2B "/probe")) EndOk with Some _ => true | None => false end.
+  match helper st (OpHandle (S2B "GET /probe") 0%N) EndOk with Some _ => true | None => false end.
